@@ -25,45 +25,7 @@ import re
 from . import core, src
 from .src import Forest, Unknown
 
-# property -> {module: [function qualname prefixes]} and tables {module: [names]}
-ANCHORS = {
-    'C01': ({'encoder': ['make_segment', 'write_segment', 'Segments', 'data_to_bytes', 'prepare_data', 'is_kanji', 'Buffer', '_encode',
-                         'get_eci_assignment_number', 'version_range'], '__init__': ['make', 'make_qr', 'make_micro']},
-            {'consts': ['MODE_', 'CHAR_COUNT_INDICATOR_LENGTH', 'ALPHANUMERIC_CHARS', 'ECI_ASSIGNMENT_NUM', 'MODE_TO_MICRO_MODE_MAPPING']}),
-    'C02': ({'encoder': ['make_matrix', 'add_timing_pattern', 'add_finder_patterns', 'add_alignment_patterns', 'add_format_info', 'add_version_info',
-                         'calc_format_info', 'calc_matrix_size', '_encode', 'get_version_name'], '__init__': ['QRCode'],
-             'utils': ['get_default_border_size', 'get_symbol_size']},
-            {'consts': ['FORMAT_INFO', 'FORMAT_INFO_MICRO', 'VERSION_INFO', 'ALIGNMENT_POS', 'ERROR_LEVEL_', 'VERSION_M'], 'encoder': ['_FINDER_PATTERN']}),
-    'C03': ({'encoder': ['make_blocks', 'make_final_message', 'add_codewords', 'write_pad_codewords']},
-            {'consts': ['GALIOS_EXP', 'GALIOS_LOG', 'GEN_POLY', 'ECC']}),
-    'C04': ({'encoder': ['find_version', 'find_minimum_version_for_mode', 'is_mode_supported', 'encode', 'Segments.bit_length_with_overhead',
-                         'write_segment', 'version_range']},
-            {'consts': ['SYMBOL_CAPACITY', 'SUPPORTED_MODES', 'CHAR_COUNT_INDICATOR_LENGTH']}),
-    'C05': ({'encoder': ['boost_error_level', 'encode', '_encode', 'normalize_errorlevel'], '__init__': ['make', 'make_qr', 'make_micro', 'make_sequence']},
-            {'consts': ['SYMBOL_CAPACITY']}),
-    'C06': ({'encoder': ['find_and_apply_best_mask', 'apply_mask', 'get_data_mask_functions', 'mask_scores', 'evaluate_mask', 'evaluate_micro_mask',
-                         'normalize_mask']}, {}),
-    'C07': ({'encoder': ['find_mode', 'is_alphanumeric', 'is_kanji', 'make_segment', 'normalize_mode', 'is_mode_supported', 'encode']},
-            {'consts': ['SUPPORTED_MODES', 'MODE_MAPPING'], 'encoder': ['_ALPHANUMERIC_PATTERN']}),
-    'C08': ({'encoder': ['encode_sequence', '_StructuredAppendInfo', 'calc_structured_append_parity', '_encode', 'Segments.bit_length_with_overhead'],
-             '__init__': ['make_sequence']}, {}),
-    'C09': ({'writers': ['write_png', 'write_pbm', 'write_pam', 'write_ppm', 'write_xpm', 'write_xbm', 'write_txt', 'write_terminal',
-                         'write_terminal_compact', '_valid_width_height_and_border'], 'utils': ['matrix_iter', 'check_valid_scale', 'check_valid_border']}, {}),
-    'C10': ({'writers': ['write_svg', 'write_eps', 'write_pdf', 'write_tex'], 'utils': ['matrix_to_lines']}, {}),
-    'C11': ({'utils': ['matrix_iter', 'matrix_iter_verbose', 'check_valid_scale', 'check_valid_border'], 'writers': ['_make_colormap', 'colorful']},
-            {'consts': ['TYPE_']}),
-    'C12': ({'writers': ['save', 'as_svg_data_uri', 'as_png_data_uri'], '__init__': ['QRCode.svg_inline', 'QRCode.svg_data_uri', 'QRCode.png_data_uri',
-                                                                                   'QRCode.save', 'QRCodeSequence.save'],
-             'cli': ['build_config', 'make_code', 'main', 'make_parser']}, {}),
-    'C13': ({'encoder': ['write_terminator', 'write_padding_bits', 'write_pad_codewords', '_encode']}, {'consts': ['TERMINATOR_LENGTH']}),
-    'C14': ({'encoder': ['normalize_version', 'normalize_mode', 'normalize_mask', 'normalize_errorlevel', 'encode', 'is_mode_supported'],
-             'writers': ['_color_to_rgba', '_hex_to_rgb_or_rgba', '_alpha_value', '_color_to_rgb', 'save'], 'cli': ['main'],
-             'utils': ['check_valid_scale', 'check_valid_border']}, {}),
-    'C15': ({'encoder': ['_encode', 'find_and_apply_best_mask', 'Segments.add_segment', 'prepare_data'], 'writers': ['write_ppm', 'colorful']}, {}),
-    'C16': ({'helpers': ['make_wifi_data', 'make_mecard_data', 'make_vcard_data', 'make_geo_data', 'make_make_email_data', '_make_epc_qr_data',
-                         'make_epc_qr', '_escape_mecard', '_escape_vcard', 'make_wifi', 'make_mecard', 'make_vcard', 'make_geo', 'make_email']},
-            {'helpers': ['_MECARD_ESCAPE', '_VCARD_ESCAPE', '_looks_like_datetime']}),
-}
+from .anchors import ANCHORS  # noqa: E402
 
 CMP_FLIP = {ast.Lt: ast.LtE, ast.LtE: ast.Lt, ast.Gt: ast.GtE, ast.GtE: ast.Gt, ast.Eq: ast.NotEq, ast.NotEq: ast.Eq,
             ast.Is: ast.IsNot, ast.IsNot: ast.Is, ast.In: ast.NotIn, ast.NotIn: ast.In}
